@@ -106,7 +106,7 @@ func C16(c *core.Ctx) {
 				if f.Pkg() != nil {
 					pk = f.Pkg().Path()
 				}
-				okPk := pk == "strings" || pk == "strconv" || pk == "net" || pk == "fmt" || pk == pkgFwd
+				okPk := pk == "strings" || pk == "strconv" || pk == "net" || pk == "fmt" || pk == "errors" || pk == "github.com/pkg/errors" || pk == "slices" || pk == pkgFwd
 				if !okPk {
 					c.Check("R1", "callee:"+core.FnName(fn)+":"+pk+"."+f.Name(), x.Pos(), false, "the parser calls "+pk+"."+f.Name()+" (outside the trusted strings/strconv/net/fmt set)")
 				}
